@@ -1,6 +1,7 @@
 /-
   C14 — Options have their documented defaults and only their documented effect.
 -/
+import VueJsx.Props.C09
 import VueJsx.Options
 import VueJsx.Element
 
@@ -144,5 +145,24 @@ theorem C14_patterns_only_matched_tags (env : Env) (extra : List String) (name b
     simp_all
   simp only [transformTag, this]
   rfl
+
+
+/-- **No option interferes with code that does not use it — module level, for code without JSX**: a module without JSX
+    that does not import Vue's `defineComponent` is transformed identically (left unchanged) under ANY two option
+    sets (corollary of the identity theorem of C09, proved by induction over the whole traversal). -/
+theorem C14_no_option_matters_without_jsx (o1 o2 : Opts) (env : Env) (as las : List String)
+    (items rest : List Node) (hj : JsxFreeL items = true) (hjr : JsxFreeL rest = true)
+    (hi : NoDcImportL items = true) (hir : NoDcImportL rest = true) :
+    (transformModule o1 env (.mk .module as (.mk .list las items :: rest))).1
+      = (transformModule o2 env (.mk .module as (.mk .list las items :: rest))).1 := by
+  rw [C09_module_identity_all_options o1 env as las items rest hj hjr hi hir,
+      C09_module_identity_all_options o2 env as las items rest hj hjr hi hir]
+
+/-- `resolveType` only matters for calls of Vue's own `defineComponent`: with no binding recorded, the two hooks it
+    switches on leave every call and every declarator alone, whatever the option says. -/
+theorem C14_resolveType_only_defineComponent (o1 o2 : Opts) (env : Env) (k : K) (as : List String) (ks : List Node) (st : St)
+    (hk : isJsxKind k = false) (hi : importsDc (.mk k as ks) = false) (hd : st.defineComponent = none) :
+    kindHook o1 env (.mk k as ks) st = kindHook o2 env (.mk k as ks) st := by
+  rw [kindHook_identity_rt o1 env k as ks st hk hi hd, kindHook_identity_rt o2 env k as ks st hk hi hd]
 
 end VueJsx
